@@ -306,7 +306,9 @@ func HeldMutex(info *types.Info, fd *ast.FuncDecl, pos token.Pos) bool {
 // IsAmbientSource reports callee names that yield values not determined by the inputs.
 func IsAmbientSource(callee string) bool {
 	switch callee {
-	case "time.Now", "time.Since", "time.Until", "os.Getpid", "os.Getppid", "os.Hostname", "os.Environ", "os.Getuid", "os.Getwd":
+	case "time.Now", "time.Since", "time.Until", "os.Getpid", "os.Getppid", "os.Hostname", "os.Environ", "os.Getuid", "os.Getwd", "os.TempDir":
+		// os.TempDir: a fixed path under the shared temporary directory is state shared with every
+		// concurrent or earlier run (os.MkdirTemp / os.CreateTemp give a fresh name and are fine)
 		return callee != "os.Getwd" // the working directory is an input of path resolution
 	}
 	return strings.HasPrefix(callee, "math/rand.") || strings.HasPrefix(callee, "math/rand/v2.") || strings.HasPrefix(callee, "crypto/rand.")
